@@ -71,11 +71,58 @@ def check(run):
     from . import C13
     C13.closes(R, RID='C09.release')       # ... and the socket is closed: also when shutdown / unwrap fail first
     request_first(R, 'C09.sites')
+    handlers_total(R, 'C09.sites')
     from . import C16
     R.rule('C09.persist', 'persist(): nothing can be raised out of the reconnecting iterator (the connection generator '
                           'lets no exception out; the back-off arithmetic cannot overflow)', 10)
     with R.as_rule('C09.persist'):
         C16.check(R)
+
+
+def handlers_total(R, RID):
+    """The handlers of run() that turn a failure into the terminal event run at any time - also before Ready, when the
+    timer fields (_last_pong, _next_ping, _poll_start: None until Ready) hold no number yet.  Arithmetic / ordering on such a
+    field inside a handler needs an `is not None` guard, else the handler itself raises TypeError and no event is produced."""
+    init = R.func(S + '.__init__')
+    none_fields = set()
+    for x in own_nodes(init.node):
+        if isinstance(x, ast.Assign) and isinstance(x.value, ast.Constant) and x.value.value is None:
+            for t in x.targets:
+                if isinstance(t, ast.Attribute) and U(t.value) == 'self':
+                    none_fields.add(t.attr)
+    none_fields -= {'_sock'}
+    q = S + '.run'
+    g = R.cfg(q)
+    # _start_time is set at the top of run(): not None in its handlers
+    set_early = set()
+    for n in g.live_nodes():
+        if n.kind == 'stmt' and isinstance(n.ast, ast.Assign) and not any(fr.kind in ('try', 'handler', 'loop') for fr in n.frames):
+            for t in n.ast.targets:
+                if isinstance(t, ast.Attribute) and U(t.value) == 'self':
+                    set_early.add(t.attr)
+    fields = none_fields - set_early
+    n_h = 0
+    for n in g.live_nodes():
+        if not any(fr.kind == 'handler' for fr in n.frames) or n.ast is None or n.kind not in ('stmt', 'test', 'yield'):
+            continue
+        n_h += 1
+        for x in walk_no_nested(n.ast):
+            ops = []
+            if isinstance(x, ast.BinOp):
+                ops = [x.left, x.right]
+            elif isinstance(x, ast.Compare) and any(isinstance(o, (ast.Lt, ast.LtE, ast.Gt, ast.GtE)) for o in x.ops):
+                ops = [x.left] + list(x.comparators)
+            for o in ops:
+                if isinstance(o, ast.Attribute) and U(o.value) == 'self' and o.attr in fields:
+                    gl = {(t, p) for (t, p, _) in guards_of(g, n)}
+                    ok = ('self.%s is None' % o.attr, False) in gl or ('self.%s is not None' % o.attr, True) in gl \
+                        or ('self.%s' % o.attr, True) in gl
+                    R.ob(RID, 'failure handlers of run() do not compute with unset timers', ok,
+                         '`%s` in a failure handler of run() computes with self.%s, which is None until Ready: for a failure '
+                         'during the handshake the handler raises TypeError and the terminal event is never produced' % (
+                             U(x)[:60], o.attr), func=q, node=x, construct='handler arithmetic on self.%s' % o.attr)
+    need(n_h >= 6, 'run(): handler statements not found')
+    R.ob(RID, 'failure handlers of run() scanned', True, '', func=q, node=None, construct='run handlers scan')
 
 
 def request_first(R, RID):
